@@ -46,7 +46,7 @@ def as_num(av):
         for at in av.alg:
             alg[at] = alg_lub(alg.get(at, CONST), av.alg[at]) if at in alg else av.alg[at]
         return AV(kind=K_ARRAY, dtype=e.dtype, shape=shape, alg=alg, sign=e.sign, origin=av.origin,
-                  tags=av.tags | e.tags, indef=av.indef or e.indef)
+                  tags=av.tags | e.tags, indef=av.indef or e.indef, mono=av.mono)
     return av
 
 
@@ -260,6 +260,8 @@ def binop(I, fr, op, l, r, node):
     elif isinstance(op, (ast.Mult, ast.MatMult)):
         alg = alg2(l, r, alg_mul)
         sign = sign_mul(l.sign, r.sign)
+        if l is r and isinstance(op, ast.Mult) and l.dtype != "complex":
+            sign = S_POS if l.sign in (S_POS, S_NEG) else (S_ZERO if l.sign == S_ZERO else S_NONNEG)  # x * x
         if isinstance(op, ast.Mult):
             if rscalar and is_nonneg(r.sign) and l.mono:
                 mono = l.mono
@@ -364,11 +366,22 @@ def binop(I, fr, op, l, r, node):
         origin = frozenset(["lit"])
     else:
         origin = fresh_tok(I, fr, node)
+    ext = None
+    if isinstance(op, (ast.Mult, ast.Div)):
+        if l.ext is not None and r.sign == S_POS and rscalar and r.ext is None:
+            ext = (l.ext[0], l.ext[1], l.ext[2:] + (("*" if isinstance(op, ast.Mult) else "/") + "|".join(sorted(r.tags)),))
+        elif r.ext is not None and l.sign == S_POS and lscalar and isinstance(op, ast.Mult) and l.ext is None:
+            ext = (r.ext[0], r.ext[1], r.ext[2:] + ("*" + "|".join(sorted(l.tags)),))
+    elif isinstance(op, ast.Sub) and l.ext is not None and r.ext is not None and l.ext[1:] == r.ext[1:]:
+        if l.ext[0] == "hi" and r.ext[0] == "lo":
+            sign = S_NONNEG
+        elif l.ext[0] == "lo" and r.ext[0] == "hi":
+            sign = S_NONPOS
     if sym is not None and dtype not in ("int", "bool"):
         if not (l.dtype in ("int", "bool") and r.dtype in ("int", "bool")):
             sym = None
     return AV(kind=kind, dtype=dtype, origin=origin, shape=shape, sym=sym, alg=alg, sign=sign, mono=mono,
-              const=c, expo=expo, tags=tags_of(l, r), indef=indef_of(l, r), f0=f0)
+              const=c, expo=expo, tags=tags_of(l, r), indef=indef_of(l, r), f0=f0, ext=ext)
 
 
 def logical_and(a, b):
@@ -475,6 +488,7 @@ def compare(I, fr, op, l, r, node):
     if not equality and (ln.dtype == "complex" or rn.dtype == "complex"):
         I.emit("complex-order", fr, node, what="ordering comparison on complex data")
     shape = bshape(ln.shape, rn.shape)
+    I.emit("compare", fr, node, op=type(op).__name__, left=ln, right=rn)
     alg = alg2(ln, rn, lambda a, b: alg_cmp(a, b, equality=equality))
     c = _NOCONST
     a, b = const_num(ln), const_num(rn)
@@ -653,9 +667,15 @@ def subscript(I, fr, base, idx, node):
         elif last.kind == K_SLICE and last.note != "ellipsis":
             lo = last.items[0]
             f0 = lo is None or (int_const(lo) == 0)
+    ext = None
+    if kind == K_SCALAR and len(comps) == 1 and 0 in b.mono and b.shape is not None and len(b.shape) == 1:
+        k = int_const(comps[0])
+        if k in (0, -1):
+            ext = ("lo" if k == 0 else "hi", tuple(sorted(b.origin)))
+            tags = tags | frozenset(["sel:first" if k == 0 else "sel:last"])
     return AV(kind=kind, dtype=b.dtype, origin=origin, shape=shape, alg=alg, sign=b.sign,
               mono=frozenset(mono_map.values()), tags=tags, indef=indef, f0=f0,
-              sym=None, const=_NOCONST)
+              sym=None, const=_NOCONST, ext=ext)
 
 
 def join_all(items):
@@ -1019,7 +1039,21 @@ def call_method(I, fr, name, base, args, kwargs, node):
         if name in LIST_MUTATORS:
             if name == "append" and args:
                 v = args[0]
-                I.mutate(fr, base, node, "list.append", lambda a, v=v: I.elem_join(a, v, None))
+                accname = v.note[4:] if (isinstance(v.note, str) and v.note.startswith("acc:")) else None
+                empty = base.items is not None and len(base.items) == 0
+                keep = False
+                if accname is not None and (empty or (0 in base.mono and base.note == "accof:" + accname)) and \
+                        ("reset", accname) not in fr.state.facts:
+                    keep = True
+                if empty and accname is None:
+                    keep = False
+
+                def upd(a, v=v, keep=keep, accname=accname):
+                    n = I.elem_join(a, v, None)
+                    return n.replace(mono=frozenset([0]) if keep else frozenset(), note=("accof:" + accname) if keep else None)
+                I.mutate(fr, base, node, "list.append", upd)
+                fr.state.facts = frozenset(f for f in fr.state.facts if not (f[0] == "reset" and f[1] == accname)) | \
+                    frozenset([("appended",)])
             elif name == "extend" and args:
                 v = args[0]
                 e, _, _ = I.iter_elem(v, fr, node)
